@@ -82,6 +82,41 @@ pub fn run(ctx: &Ctx) {
         }
     });
 
+    // long messages: the genuine one is accepted, any change in its tail is rejected
+    let mut longm: Vec<(u8, u32, u8)> = Vec::new();
+    for hi in 0..6u8 {
+        for len in [65_535u32, 65_536, 70_001, 200_000] {
+            for variant in 0..3u8 {
+                longm.push((hi, len, variant));
+            }
+        }
+    }
+    ctx.enumerate("long_messages", longm.len() as u64, false, |i| longm[i as usize], |c: &(u8, u32, u8)| {
+        let h = ALL_HASHES[c.0 as usize];
+        let m = Model::with_overrides(h, &ov);
+        let levels = vec![(8u32, 2u32)];
+        let seed = gen::expand(0x10f, h.n());
+        let mut msg = gen::expand(c.1 as u64, c.1 as usize);
+        let sig = hss::sign(&m, &levels, &seed, 1, &msg);
+        let pk = hss::public_key(&m, &levels, &seed);
+        let class = match c.2 {
+            0 => "long-genuine",
+            1 => {
+                let l = msg.len();
+                msg[l - 1] ^= 1;
+                "long-last-byte-changed"
+            }
+            _ => {
+                msg.truncate(65_535.min(msg.len() - 1));
+                "long-truncated"
+            }
+        };
+        match differential(&m, h, &msg, &sig, &pk, class) {
+            Ok(acc) => pass(format!("{}|{}", class, if acc { "accepted" } else { "rejected" }), true),
+            Err((k, e)) => fail(k, e),
+        }
+    });
+
     // a valid signature longer than 65535 bytes (listed known finding siglen>65535): always exercised
     ctx.single("long_valid_signature", 0u8, |_| {
         let h = HashId::Sha256_256;
@@ -200,6 +235,15 @@ pub fn run(ctx: &Ctx) {
             items.push(SweepCase { base: *bi as u16, op: 5, pos });
         }
     }
+    // every extension length 1..=24 of signature and key with fill bytes 0x00 / 0xff / 0xa5
+    for bi in &bases {
+        for k in 1..=24u32 {
+            for fill in 0..3u32 {
+                items.push(SweepCase { base: *bi as u16, op: 6, pos: k * 4 + fill });
+                items.push(SweepCase { base: *bi as u16, op: 7, pos: k * 4 + fill });
+            }
+        }
+    }
     ctx.enumerate("byte_and_prefix_sweep", items.len() as u64, true, |i| items[i as usize].clone(), |c: &SweepCase| {
         let b = &pool[c.base as usize];
         let m = Model::with_overrides(b.hash, &ov);
@@ -212,7 +256,9 @@ pub fn run(ctx: &Ctx) {
             2 => { sig.truncate(p); "sig-prefix" }
             3 => { pk[p] ^= 0x01; "pk-flip01" }
             4 => { pk[p] ^= 0x80; "pk-flip80" }
-            _ => { pk.truncate(p); "pk-prefix" }
+            5 => { pk.truncate(p); "pk-prefix" }
+            6 => { sig.extend(std::iter::repeat([0x00u8, 0xff, 0xa5][p % 4 % 3]).take(p / 4)); "sig-extended" }
+            _ => { pk.extend(std::iter::repeat([0x00u8, 0xff, 0xa5][p % 4 % 3]).take(p / 4)); "pk-extended" }
         };
         match differential(&m, b.hash, &b.msg, &sig, &pk, class) {
             Ok(false) => pass(format!("{}|{}|L{}", class, b.hash.name(), b.levels.len()), true),
